@@ -103,7 +103,10 @@ func (c *Ctx) callgraph() *callGraph {
 							add(m)
 						}
 					}
-					if ms, ok := cc.Method.Type().(*types.Signature); ok {
+					// adapter idiom: only http.HandlerFunc-style adapters of non-repo
+					// interfaces are modelled (a blanket rule would make every func()
+					// closure a callee of every no-arg interface method)
+					if ms, ok := cc.Method.Type().(*types.Signature); ok && cc.Method.Name() == "ServeHTTP" {
 						for _, t := range g.bySig[sigKey(ms)] {
 							add(t)
 						}
